@@ -151,6 +151,44 @@ func runC09(c *ShardCtx) {
 			return
 		}
 	}
+	// a leaf rule referenced TWICE from a mid-level rule, one of the references inside a parenthesised
+	// choice / sequence that the optimizer first has to flatten (the reference is reached a round
+	// later than the other one), the mid-level rule referenced from a rule before or after it
+	{
+		lit := peg.Lit
+		saved := inputs
+		inputs = peg.Inputs([]string{"a", "c", "0", "!", "#"}, 3)
+		leafs := []func() *peg.Expr{func() *peg.Expr { return peg.Cls(false, false, "a-c") }, func() *peg.Expr { return lit("a") }, func() *peg.Expr { return peg.Seq(lit("a"), lit("c")) }}
+		mids := []func() *peg.Expr{
+			func() *peg.Expr { return peg.Choice(peg.Seq(peg.Ref("L"), lit("!")), peg.Choice(peg.Ref("L"), lit("0"))) },
+			func() *peg.Expr { return peg.Choice(peg.Choice(peg.Ref("L"), lit("0")), peg.Seq(peg.Ref("L"), lit("!"))) },
+			func() *peg.Expr { return peg.Seq(peg.Ref("L"), peg.Seq(peg.Ref("L"), lit("0"))) },
+			func() *peg.Expr { return peg.Choice(peg.Seq(lit("0"), peg.Seq(peg.Ref("L"), lit("!"))), peg.Ref("L")) },
+			func() *peg.Expr { return peg.Seq(peg.Opt(peg.Choice(peg.Choice(lit("0"), peg.Ref("L")), lit("!"))), peg.Ref("L")) },
+		}
+		tops := []func() *peg.Expr{func() *peg.Expr { return peg.Choice(lit("#"), peg.Ref("M")) }, func() *peg.Expr { return peg.Seq(peg.Ref("M"), peg.Opt(peg.Ref("M"))) }}
+		for _, lf := range leafs {
+			for _, md := range mids {
+				for _, tp := range tops {
+					for order := 0; order < 3; order++ {
+						if c.Expired("nested mid-level family") {
+							return
+						}
+						rs := []*peg.Rule{{Name: "S", Expr: tp()}, {Name: "M", Expr: md()}, {Name: "L", Expr: lf()}}
+						switch order {
+						case 1:
+							rs[1], rs[2] = rs[2], rs[1]
+						case 2:
+							rs = []*peg.Rule{rs[0], {Name: "V", Expr: peg.Choice(lit("#"), peg.Ref("M"))}, rs[1], rs[2]}
+							rs[0] = &peg.Rule{Name: "S", Expr: peg.Seq(peg.Ref("V"), peg.Opt(peg.Ref("V")))}
+						}
+						one(&peg.Grammar{Rules: rs}, [][]string{nil})
+					}
+				}
+			}
+		}
+		inputs = saved
+	}
 	// two-site family and same-name label family (shared with C01 / C02)
 	{
 		saved := inputs
